@@ -134,6 +134,8 @@ let run_node (id : ostring) (body : Sx.t list) : ostring =
     let o = mk_oracles (L sets) values addrs sigs in
     let universe = List.map cstr_of_sx univ in
     let nd = ref node_empty in
+    let regs = ref (VR0, AR0, UR0) in
+    let last_v = ref "-" and last_a = ref "-" and last_u = ref "-" in
     let k = ref 0 in
     let mism = ref None in
     let check (res : ostring) (nd' : node) (obs : Sx.t) =
@@ -198,6 +200,84 @@ let run_node (id : ostring) (body : Sx.t list) : ostring =
              (match matching with
               | (res, nd') :: _ -> check res nd' obs; nd := nd'
               | [] -> let (res, nd') = List.hd results in check res nd' obs; nd := nd')
+           (* ---- the phase-level machine of model/Interleave.v ---- *)
+           | A ph :: rest when (String.length ph >= 3 && (String.sub ph 0 2 = "iv" || String.sub ph 0 2 = "ia" || String.sub ph 0 2 = "iu"))
+                            || ph = "vdone" || ph = "adone" || ph = "udone" || ph = "final" ->
+             let obs = List.nth rest (List.length rest - 1) in
+             let args = List.filteri (fun i _ -> i < List.length rest - 1) rest in
+             let (rv, ra, ru) = !regs in
+             let mk () = { i_n = !nd; i_v = rv; i_a = ra; i_u = ru } in
+             let perm_of l = List.map (fun p -> nat_of_int (int_of_sx p)) l in
+             let nbs_of nbs = List.map (fun x -> match lst x with
+               | [t; r1; r2] -> { nb_target = cstr_of_sx t; nb_inc = response_of_sx r1; nb_full = response_of_sx r2 }
+               | _ -> raise (Parse "neighbor")) nbs in
+             let out_name = function
+               | ONone -> "-"
+               | OVal (Produced dl) -> "produced:" ^ String.concat "," (List.map (fun (_, d) -> drop_name d) dl)
+               | OVal (Refused _) -> "refused"
+               | OAdd None -> "ok"
+               | OAdd (Some e) -> "err:" ^ err_name e
+               | OUpd true -> "replaced"
+               | OUpd false -> "kept" in
+             let istep_ s op = istep o.value_fn o.addr_of o.sig_ok o.hblock gen_id_sha o.st o.validator s op in
+             let apply op =
+               let (s', out) = istep_ (mk ()) op in
+               nd := s'.i_n; regs := (s'.i_v, s'.i_a, s'.i_u);
+               (match out with
+                | OVal _ -> last_v := out_name out
+                | OAdd _ -> last_a := out_name out
+                | OUpd _ -> last_u := out_name out
+                | ONone -> ());
+               out_name out in
+             (* a sync round's arg-max resolves ties by Go's map order: try every preferred target and
+                keep the first whose final state the rest of the history confirms; the histories of the
+                sweep have one neighbor, so "host" and that neighbor are the only candidates *)
+             let iu3 now nbs =
+               let nbl = nbs_of nbs in
+               let prefs = "host" :: List.map (fun nb -> ostr nb.nb_target) nbl in
+               let want = match str obs with
+                 | x when String.length x > 2 && String.sub x 0 2 = "r:" -> Some (String.sub x 2 (String.length x - 2))
+                 | _ -> None in
+               let outcome pref = out_name (snd (istep_ (mk ()) (IU3 (cz_of_sx now, nbl, cstr pref)))) in
+               let pref = match List.filter (fun p -> Some (outcome p) = want) prefs with
+                 | p :: _ -> p
+                 | [] -> List.hd prefs in
+               apply (IU3 (cz_of_sx now, nbl, cstr pref)) in
+             let res =
+               (match ph, args with
+                | "iv1", [ts] -> apply (IV1 (cz_of_sx ts))
+                | "iv2", [] -> apply IV2
+                | "iv3", [] -> apply IV3
+                | "iv4", [_; L perm] -> apply (IV4 (perm_of perm))
+                | "vdone", [_; L perm] ->
+                  (match rv with
+                   | VR0 -> !last_v
+                   | VR3 _ -> apply (IV4 (perm_of perm))
+                   | _ -> "model-midway")
+                | "ia1", [t] -> apply (IA1 (tx_of_sx t))
+                | "ia2", [] -> apply IA2
+                | "ia3", [] -> apply IA3
+                | "adone", [] ->
+                  (match ra with
+                   | AR0 -> !last_a
+                   | AR3 _ -> apply IA4
+                   | _ -> "model-midway")
+                | "iu1", [] -> apply IU1
+                | "iu2", [] -> apply IU2
+                | "iu3", [now; L nbs] -> iu3 now nbs
+                | "udone", [now; L nbs] ->
+                  (match ru with
+                   | UR0 -> !last_u
+                   | UR1 _ -> ignore (apply IU2); iu3 now nbs
+                   | UR2 _ -> iu3 now nbs)
+                | "final", [] -> "final"
+                | _ -> raise (Parse ("phase op in " ^ id))) in
+             (match str obs with
+              | "_" -> ()
+              | x when String.length x > 2 && String.sub x 0 2 = "r:" ->
+                if String.sub x 2 (String.length x - 2) <> res && !mism = None then
+                  mism := Some (!k, "R=" ^ res ^ " (the implementation reported " ^ x ^ ")")
+              | _ -> check res !nd obs)
            | _ -> raise (Parse ("op in " ^ id)));
           incr k
         end) ops;
